@@ -262,6 +262,16 @@ def monitor(case, out):
 
 
 OPS = {"rec": 0, "req": 1, "resp": 2}
+PREAMBLE = ("From Coq Require Import String.\nFrom V Require Import Base.NtsHex Model.NtsMsg.\n"
+            "Open Scope string_scope.\nNotation hw := hex_words.\n")
+
+
+def hexwords(ints):
+    """six hex digits per integer (all integers of the encodings are within 0 .. 2^24-1)"""
+    for x in ints:
+        if not 0 <= x < (1 << 24):
+            return vplib.coq_list([vplib.zlit(v) for v in ints])
+    return 'hw "%s"' % "".join("%06x" % x for x in ints)
 
 
 def load_corpus():
@@ -310,7 +320,7 @@ def main():
     cases.append(("rec", rec(1, u16list(rand_ids(rng, 32767)))))
     cases.append(("rec", rec(12, rand_bytes(rng, 65534))))
     cases.append(("rec", rec(12, rand_bytes(rng, 65535))))
-    for _ in range(6000 if thorough else 900):
+    for _ in range(6000 if thorough else 500):
         cases.append(("rec", rand_record(rng) + (rand_bytes(rng, rng.randint(0, 6)) if rng.random() < 0.5 else b"")))
     dist["records"] = len(cases) - n0
 
@@ -332,7 +342,7 @@ def main():
                 elif a >= 0xF0:
                     utf.append(bytes([a, b, d, rng.choice(grid)]))
     if not thorough:
-        utf = rng.sample(utf, 1500)
+        utf = rng.sample(utf, 600)
     for s in utf:
         cases.append(("rec", rec(rng.choice([6, 13, 14]), s)))
     dist["utf8_strings"] = len(cases) - n0
@@ -341,7 +351,7 @@ def main():
     # 3. messages: grammar + record-level mutations + truncations
     n0 = len(cases)
     for kind in ("req", "resp"):
-        for _ in range(8000 if thorough else 1200):
+        for _ in range(8000 if thorough else 600):
             cases.append((kind, rand_message(rng, kind)))
         # hand-made boundary messages
         cases.append((kind, b""))
@@ -388,20 +398,20 @@ def main():
 
     def coq_case(case, out):
         op, data = case
-        inp = "(%d, %s)" % (OPS[op], vplib.coq_list([str(x) for x in data]))
+        inp = '(%d, "%s")' % (OPS[op], data.hex())
         if out[0] == "PANIC":
             return inp, "[2]"
-        return inp, vplib.coq_list([vplib.zlit(int(x)) for x in out[1:]])
+        return inp, hexwords([int(x) for x in out[1:]])
 
     vplib.correspondence(
         c, "ntp-proto", cases,
         line_of=lambda case: "%s %s" % (case[0], case[1].hex() if case[1] else "-"),
         coq_case_of=coq_case,
-        preamble="From V Require Import Model.NtsMsg.\n",
-        checker="mismatches zlist_eqb run30",
+        preamble=PREAMBLE,
+        checker="mismatches zlist_eqb run30s",
         monitor=monitor,
         nontrivial=nontrivial,
-        shard=150,
+        shard=400,
         sample_of=lambda case, out: {"op": case[0], "bytes_hex": case[1].hex()[:120], "len": len(case[1]), "implementation": " ".join(out)[:160]},
     )
     dist["outcomes"] = outcome
